@@ -461,6 +461,38 @@ def loop_count_enumeration(pkg, upto):
     return bad
 
 
+def float_night_mean(chk, lengths):
+    """Float level: the plain package's constructor + nightforc for many urban lengths: the returned ublTemp
+    must be the mean of the returned cells (the property's last clause), unless the call fails (fail-stop)."""
+    import types
+    core.repo_python_path()
+    import importlib
+    _U = importlib.import_module("uwg.UBLDef")
+    rsm = types.SimpleNamespace(nzfor=2, windProf=[1.5, 2.5], tempProf=[291.0, 292.0], dz=[4.0, 6.0])
+    n, bad, stop = 0, [], 0
+    for L in lengths:
+        try:
+            ubl = _U.UBLDef('C', L, 295.0, 250., 1000., 80.)
+            cells = [290.0 + 0.37 * i for i in range(len(ubl.ublTempdx))]
+            t, cs = _U.UBLDef.nightforc(list(cells), 300., 80., ubl.paralLength, ubl.charLength, rsm, 0.01)
+        except (IndexError, ZeroDivisionError):
+            stop += 1
+            continue
+        n += 1
+        mean = sum(cs) / len(cs)
+        if abs(t - mean) > 1e-9 * max(1.0, abs(mean)):
+            bad.append((L, t, mean, len(cs)))
+    for L, t, mean, k in bad[:2]:
+        chk.violation('impl-violation', 'boundary-layer temperature is not the mean of its along-wind cells (floats)',
+                      case={'charLength': L, 'maxdx': 250.0, 'cells': k, 'dt': 300.0, 'nightBLHeight': 80.0},
+                      observed='ublTemp %r, mean of the %d cells %r' % (t, k, mean), expected='equal')
+    chk.direct('C15-oracle(float nightforc: ublTemp = mean of cells)', n, n,
+               'plain float UBLDef constructor (maxdx 250) + nightforc with distinct cell temperatures for every '
+               'integer urban length 1..3000, every 7th up to 70000 and halves/thirds: returned ublTemp equals the '
+               'mean of the returned cells (1e-9 relative); %d lengths end in IndexError (fail-stop)' % stop,
+               mismatches=len(bad))
+
+
 # =============================================================================== indoor node
 def gen_indoor(rng, kind):
     """Indoor-air states for the balance: isothermal / source-free with the HVAC at rest."""
@@ -787,6 +819,9 @@ def run(chk):
         'night_mean carries "loop count = number of cells" as a hypothesis; with maxdx = 250 m it '
         'holds for every integer charLength from 1 to %s m (first failure: %s -> IndexError, '
         'fail-stop)' % ((badL[0] - 1) if badL else upto, badL[0] if badL else 'none up to %d' % upto))
+
+    float_night_mean(chk, list(range(1, 3001)) + list(range(3001, 70001, 7)) +
+                     [x + 0.5 for x in range(1, 2000, 3)] + [x / 3.0 for x in range(3, 6000, 5)])
 
     # ---------------------------------------------------------------- where the weights come from
     c15_inputs.run_inputs(chk, pkg, quick)
